@@ -468,6 +468,55 @@ func (x *ctx) runFaultJob(id int, root string) {
 		r.Count("fault_then_save_then_reload", 1)
 		r.Count("fault_cycle:"+k, 1)
 	}
+	// export with the other scrypt parameter set (Clone + ToLowSecurity / ToDefaultSecurity + Save,
+	// as `account export` does): the exported file opens with the same passwords, and the wallet
+	// it was cloned from is untouched — in memory and after its next save + reload
+	if !w.failed {
+		low := id%8 != 0
+		wd := w.cli.GetWalletData().Clone()
+		pwds := make([][]byte, len(wd.Accounts))
+		okp := true
+		for i, ad := range wd.Accounts {
+			if a := w.find(ad.Address); a != nil {
+				pwds[i] = a.pwd
+			} else {
+				okp = false
+			}
+		}
+		var err error
+		if !okp {
+			err = fmt.Errorf("wallet data lists an account the model does not know")
+		} else if low {
+			w.log("ok export: Clone + ToDefaultSecurity + Save")
+			if p := kit.Catch(func() { err = wd.ToDefaultSecurity(pwds) }); p != nil {
+				w.vio("export-conversion-panic:ToDefaultSecurity", fmt.Sprintf("WalletData.ToDefaultSecurity panicked on a wallet with %d account(s): %v", len(pwds), p), w.replay())
+				return
+			}
+		} else {
+			w.log("ok export: Clone + ToLowSecurity + Save")
+			if p := kit.Catch(func() { err = wd.ToLowSecurity(pwds) }); p != nil {
+				w.vio("export-conversion-panic:ToLowSecurity", fmt.Sprintf("WalletData.ToLowSecurity panicked on a wallet with %d account(s): %v", len(pwds), p), w.replay())
+				return
+			}
+		}
+		exp := filepath.Join(dir, "exported.dat")
+		if err == nil {
+			err = wd.Save(exp)
+		}
+		if err != nil {
+			w.vio("fault:export-failed", err.Error(), w.replay())
+		} else if ecli, err := account.Open(exp); err != nil {
+			w.vio("fault:saved-wallet-unreadable", "exported wallet: "+err.Error(), w.replay())
+		} else {
+			w.verify(ecli, "exported-wallet", false, nil)
+			if !w.failed {
+				w.verify(w.cli, "original-in-memory-after-export", false, nil)
+			}
+			if !w.failed && w.do("SetLabel", false, donor) && !w.failed && w.reload("original-reloaded-after-export") && !w.failed {
+				r.Count("export_other_security_cycles", 1)
+			}
+		}
+	}
 	if id == 0 {
 		r.Sample(map[string]interface{}{"fault_script_example": w.trace})
 	}
